@@ -5,6 +5,7 @@ package c04
 
 import (
 	"fmt"
+	"strings"
 	"testing"
 
 	"verifharness/kit"
@@ -30,6 +31,9 @@ func TestCheck(t *testing.T) {
 	r.Cases(n, 0, func(c *kit.Case) {
 		res := qbftsim.RunTimelyCase(c.Rng, c.Idx)
 		for _, f := range res.Findings {
+			if strings.HasPrefix(f.Sig, "qbft/termination/not-decided-within-one-leader-rotation/") {
+				r.Count("bound_exceeded/timer="+res.Meta.Timer, 1)
+			}
 			c.Violation(f.Sig, f.What, map[string]any{"meta": res.Meta, "finding": f.What, "last_fault": res.LastFault.String(),
 				"round_at_last_fault": res.RoundAtFault, "decide_round": res.DecideRound, "trace": tail(res.Trace, 700)})
 		}
@@ -63,6 +67,18 @@ func TestCheck(t *testing.T) {
 			r.Sample(map[string]any{"meta": res.Meta, "decide_round": res.DecideRound, "events": res.Events, "trace_head": head(res.Trace, 30)})
 		}
 	})
+	// Individual exceedances of the literal bound are known findings for all three production timers
+	// (rare desynchronisation histories, see DESIGN C04 and known_findings.json). A change that breaks
+	// termination systematically shows as a much higher rate: more than 1 % of the cases of a timer
+	// (measured baseline: eager 0.02 %, inc/linear about 0.1 %) is reported under its own signature.
+	for _, tm := range []string{"eager", "inc", "linear"} {
+		cases, exc := r.Counter("timer/"+tm), r.Counter("bound_exceeded/timer="+tm)
+		if cases >= 300 && exc*100 > cases {
+			r.Violation(-1, "qbft/termination/bound-exceeded-in-more-than-1-percent-of-cases/timer="+tm,
+				fmt.Sprintf("%d of %d %s-timer cases had a running member undecided one full leader rotation after the last fault (known baseline rate is below 0.2 %%)", exc, cases, tm),
+				map[string]any{"timer": tm, "cases": cases, "exceeded": exc})
+		}
+	}
 	// all fault subsets enumerated?
 	want := 0
 	for n := 4; n <= 7; n++ {
